@@ -28,6 +28,7 @@ type Contract struct {
 	Props    []string
 	Results  []string
 	Params   []string
+	TaggedOnly []string // properties this function serves only through clauses tagged with them
 	Clauses  []*Clause
 	File     string
 	Line     int
@@ -70,7 +71,12 @@ type Def struct {
 	Line                    int
 }
 
+type GhostVar struct {
+	Pkg, Name, Type string
+}
+
 type ContractSet struct {
+	Ghosts []*GhostVar
 	Renames map[string][][2]string // tag -> identifier renames for clause texts
 	KeyRenames map[string][][2]string
 	Defs   map[string]*Def
@@ -85,8 +91,8 @@ var loopRe = regexp.MustCompile(`^loop\s+(\d+)\s*:\s*(.*)$`)
 
 func isKeyword(w string) bool {
 	switch w {
-	case "section", "rename", "renamekey", "params", "def", "func", "props", "results", "requires", "ensures", "modifies", "loop", "panics_when", "may_panic", "assert", "assume",
-		"axiom", "lemma", "trusted", "inline", "ghost", "decreases", "allocates", "induction", "note", "end", "use", "opaque", "bounded", "template", "havoc", "order_independent", "effect", "emits", "after", "invariant", "before_stmt", "after_stmt", "effects_only":
+	case "ghostvar", "props_tagged_only", "section", "rename", "renamekey", "params", "def", "func", "props", "results", "requires", "ensures", "modifies", "loop", "panics_when", "may_panic", "assert", "assume",
+		"axiom", "lemma", "trusted", "inline", "ghost", "decreases", "allocates", "induction", "note", "end", "use", "opaque", "bounded", "template", "havoc", "order_independent", "order_assumed", "order_exempt", "order_only", "effect", "emits", "after", "invariant", "before_stmt", "after_stmt", "effects_only":
 		return true
 	}
 	return false
@@ -124,6 +130,13 @@ func (cs *ContractSet) parseFile(pkgPath, fileName string, f *ast.File, lineOf f
 			}
 			finish()
 			switch first {
+			case "ghostvar":
+				f := strings.Fields(txt)
+				if len(f) != 3 {
+					return fmt.Errorf("%s:%d: ghostvar <name> <type>", fileName, line)
+				}
+				cs.Ghosts = append(cs.Ghosts, &GhostVar{Pkg: pkgPath, Name: f[1], Type: f[2]})
+				continue
 			case "section":
 				section = strings.TrimSpace(txt[7:])
 				cur, curLemma = nil, nil
@@ -257,6 +270,9 @@ func (cs *ContractSet) parseFile(pkgPath, fileName string, f *ast.File, lineOf f
 					continue
 				case "params":
 					cur.Params = splitList(cl.Text)
+					continue
+				case "props_tagged_only":
+					cur.TaggedOnly = splitList(cl.Text)
 					continue
 				}
 				cur.Clauses = append(cur.Clauses, cl)
